@@ -66,7 +66,7 @@ TEXT = {
         note="Simultaneous count only; distinct thread ids are evidence not verdict.", ref="4/C13"),
     "C14": dict(
         technique="alignment/pattern/interval-disjointness monitor + ASan/LSan, both allocator back ends",
-        text="Exploration: boundary-heavy (size, alignment) grid and random alloc/free interleavings with pattern verification; AlignedVector histories against a std::vector model for 7 element types (incl. lifetime-tracked and self-referencing ones); length_error check.",
+        text="Exploration: boundary-heavy (size, alignment) grid and random alloc/free interleavings with pattern verification; AlignedVector histories against a std::vector model for 8 element types (incl. lifetime-tracked, self-referencing and list-constructible ones); length_error check.",
         note="libtbbmalloc internals are opaque to ASan (DESIGN 3.3).", ref="4/C14"),
     "C15": dict(
         technique="schema round trip on exact-size heap buffers, all truncation points, FixedBufferWriter model, under ASan/UBSan",
